@@ -24,7 +24,7 @@ TODAY = datetime.date.today().year
 
 
 def setup(tier):
-    tk.get(("ac",))
+    tk.get(("ac", "hs", "ref"))
 
 
 def _ok_editions(cand, year):
@@ -147,4 +147,6 @@ def phases(tier):
         Phase("boundary-years", "enum", items=lambda: _enum_items(tier), exhaustive=True),
         Phase("docs", "gen", strategy=lambda: legal.document(hostile=True).map(lambda t: {"text": t, "tokenizer": "ac"}), n=n),
         Phase("reference-overlaps-ambiguous", "gen", strategy=_ref_overlap_doc, n=n // 4),
+        Phase("docs-hs", "gen", strategy=lambda: legal.document(hostile=True).map(lambda t: {"text": t, "tokenizer": "hs"}), n=n // 8),
+        Phase("docs-ref", "gen", strategy=lambda: legal.document(hostile=True).map(lambda t: {"text": t, "tokenizer": "ref"}), n=n // 16),
     ]
